@@ -48,9 +48,9 @@ theorem indexOf_fast_eq_generic (a : Dense) (h : a.Inv) (hg : a.stdGuard = true)
       obtain ⟨v, hv, h1, h2, _⟩ := view_at a hp proto gr n hk
       rw [List.drop_eq_getElem_cons hk, hv]
       simp only [scanFirst, indexOfGeneric, slotVal, h1, h2, Bool.true_and]
-      cases he : eq v
-      · simp only [Bool.false_eq_true, if_false]; exact ih (n + 1) (by omega)
-      · simp only [if_true]
+      by_cases he : eq v = true
+      · rw [if_pos he, if_pos he]
+      · rw [if_neg he, if_neg he]; exact ih (n + 1) (by omega)
   exact key (L - n) n (by omega)
 
 /-- includes (SameValueZero, every index read with Get): fast = generic. -/
@@ -262,8 +262,6 @@ theorem pop_fast_refines (a : Dense) (h : a.Inv) (r : Dense × Bool) (hr : a.pop
           intro i hi
           show ((a.values[i]?).join).map Elem.abs = none
           rw [List.getElem?_eq_none (by omega)]; rfl
-        have hinv1 : ∀ (l : Nat), ({ a with values := a.values.take (a.length - 1), objCount := a.objCount - 1, length := l } : Dense).Inv ↔ a.length - 1 ≤ l ∨ True := by
-          intro l; simp
         cases hw : a.lenW
         · simp only [hw, Bool.false_eq_true, if_false, Option.some.injEq] at hr
           subst hr
@@ -274,7 +272,7 @@ theorem pop_fast_refines (a : Dense) (h : a.Inv) (r : Dense × Bool) (hr : a.pop
             simp [SpecArray.setLength, hlw, hw]
           rw [hsl]
           refine Prod.ext ?_ rfl
-          refine SpecArray.ext' ?_ rfl rfl rfl
+          refine SpecArray.ext' ?_ rfl (hlw.trans hw).symm rfl
           funext i
           show (((a.values.take (a.length - 1))[i]?).join).map Elem.abs = if i = a.length - 1 then none else a.abs.get i
           rw [hres]
@@ -299,7 +297,7 @@ theorem pop_fast_refines (a : Dense) (h : a.Inv) (r : Dense × Bool) (hr : a.pop
             simp only [SpecArray.setLength, hlw, hw, Bool.not_true, Bool.false_eq_true, if_false, hal, hlt2, SpecArray.truncate, hcut, beq_self_eq_true]
           rw [hsl]
           refine Prod.ext ?_ rfl
-          refine SpecArray.ext' ?_ rfl hw rfl
+          refine SpecArray.ext' ?_ rfl (hlw.trans hw).symm rfl
           funext i
           show (((a.values.take (a.length - 1))[i]?).join).map Elem.abs = _
           rw [hres]
@@ -312,11 +310,11 @@ theorem pop_fast_refines (a : Dense) (h : a.Inv) (r : Dense × Bool) (hr : a.pop
     simp only [h0, if_true]
     have hsl : a.abs.setLength 0 = if a.lenW then (a.abs, true) else (a.abs, false) := by
       simp only [SpecArray.setLength, hlw, hal, h0]
-      cases a.lenW
+      cases hw2 : a.lenW
       · rfl
       · simp only [Bool.not_true, Bool.false_eq_true, if_false, Nat.le_refl, ge_iff_le, if_true]
         refine Prod.ext ?_ rfl
-        exact SpecArray.ext' rfl h0.symm rfl rfl
+        exact SpecArray.ext' rfl (hal.trans h0).symm rfl rfl
     rw [hsl]
     cases hw : a.lenW
     · simp only [hw, Bool.false_eq_true, if_false, Option.some.injEq] at hr
